@@ -7,6 +7,7 @@ use crate::parsing::chunked_reader::ChunkedReader;
 use crate::streams::BaseStream;
 
 #[derive(Debug)]
+#[cfg_attr(kani, repr(u8))]
 pub enum BodyReader {
     Chunked(ChunkedReader<BaseStream>),
     Length(Take<BufReader<BaseStream>>),
